@@ -19,7 +19,9 @@ PROPERTIES = {
                 "singleton definitions at any place, files starting with BO_), pairwise interactions, degenerate and boundary "
                 "files are parsed by the real parser, all 20 Analyzer.Run are executed (panics caught), and position + "
                 "message kind of every diagnostic are compared with the extracted model; the harness also checks that no pass "
-                "modifies the File and that the reverse pass order gives the same diagnostics; and the real `cantool lint` "
+                "modifies the File, that the reverse pass order gives the same diagnostics, and that analyzer values obtained "
+                "once from Analyzer() and reused over a window of files (twice per file) report what fresh ones report (no "
+                "state between runs: the model is per file); and the real `cantool lint` "
                 "binary is run on the degenerate/boundary files one by one (empty, blank, last line without line feed with a "
                 "diagnostic in column 1 / > 1, diagnostic on line 1, CRLF/CR endings, truncated files = parse errors at the "
                 "end, one file per analyzer with only that analyzer reporting, exactly 1/2/255/256/257/512 diagnostics, many "
@@ -52,7 +54,7 @@ RULE = ("per generated file and per analyzer one evaluation (ordered diagnostics
         "IsCamelCase, float >, int64(float), prefix/suffix) counted under kinds oracle-*; distinct by line hash. "
         "Files: degenerate (empty, blank, CRLF-only, unknown lines only, metadata only), boundary (diagnostic on a last "
         "line without line feed in column 1 / > 1, on line 1, CR/CRLF layouts, truncated texts, one analyzer only, exact "
-        "diagnostic counts around 256, many passes), clean, each rule x {1, many}, "
+        "diagnostic counts around 256, many passes, directories of files that share identifiers with an earlier file but declare fewer of them), clean, each rule x {1, many}, "
         "pairs of rules, random mixes, and `synthetic` (parsed definitions perturbed in memory to values the parser "
         "cannot produce; a difference there is reported as a broken correspondence, not as a failing input).")
 
@@ -88,12 +90,26 @@ def harness_args(tier, seed):
 def run(res, replay=None):
     vlib.proof_stage(res)
     args = harness_args(res.tier, res.seed)
+    tmp = None
     if replay:
         obs = json.load(open(replay)).get("replay", {}).get("observation", "")
-        m = re.search(r"text=([0-9a-f]*)", obs)
-        if m:
+        m = re.search(r" text=([0-9a-f]*)", obs)
+        b = re.search(r" batchtexts=([0-9a-f,\-]+)", obs)
+        if b:
+            # a violation that needs its history: the files linted / analyzed before it in the same directory / window
+            import tempfile
+            tmp = tempfile.NamedTemporaryFile("w", prefix="verif-lint-replay-", suffix=".txt", delete=False)
+            tmp.write("\n".join(b.group(1).split(",")) + "\n")
+            tmp.close()
+            args = ["replaydir", vlib.REPO, tmp.name]
+        elif m:
             args = ["replay", m.group(1) or '""', vlib.REPO]
-    stats = vlib.standard_run(res, "lint", args, "lint", RULE, ASSUMPTIONS)
+    try:
+        stats = vlib.standard_run(res, "lint", args, "lint", RULE, ASSUMPTIONS)
+    finally:
+        if tmp:
+            import os
+            os.unlink(tmp.name)
     if stats and not replay:
         # the boundary files the generator promises (confirmed by the model in the driver) must all be there
         kinds = stats.get("kinds", {})
